@@ -91,9 +91,10 @@ func TestRaceStress(t *testing.T) {
 		var db *sql.DB
 		dir := ""
 		if r.Bool() {
-			dir = filepath.Join(scratchRoot, fmt.Sprintf("verifsim-race-%d-%d", os.Getpid(), runCounter.Add(1)))
-			os.MkdirAll(dir, 0o700)
 			var err error
+			if dir, err = scratchDir("race"); err != nil {
+				t.Fatal(err)
+			}
 			db, err = sql.Open("sqlite3", filepath.Join(dir, "w.db"))
 			if err != nil {
 				t.Fatal(err)
